@@ -20,7 +20,7 @@ def run(ctx):
     D.write_ndjson(ctx.path("cases.ndjson"), cases)
     n_tlc = len(cases)
     # direction B: seeded renderings / near misses from the lexical grammars, judged by the same judge
-    n_seeded = 1500 if thorough else 150
+    n_seeded = 4000 if thorough else 150
     D.run_harness(ctx, binary, ["gen", str(n_seeded), ctx.path("seeded.ndjson")])
     seeded = D.read_ndjson(ctx.path("seeded.ndjson"))
     if len(seeded) < 8 * n_seeded // 2:
